@@ -374,7 +374,7 @@ func runC12(e *Env) {
 
 func c12Case(t *T) {
 	r := t.R
-	g := &progGen{maxDepth: 5, dynamic: true, ctrl: true, probes: true, styles: true}
+	g := &progGen{maxDepth: 5, dynamic: true, ctrl: true, probes: true, styles: true, strict: chance(t.R, 1, 5)}
 	p := GenProgram(r, g)
 	var failing []string
 	t.Describe(func() any {
